@@ -213,6 +213,9 @@ class StoreBackendMixin(object):
                             f"exception. Exception: {e}.",
                             FutureWarning,
                         )
+                        # The file holds a truncated pickle: do not let it
+                        # be moved to its final name.
+                        raise
 
             self._concurrency_safe_write(item, filename, write_func)
         except Exception as e:  # noqa: E722
